@@ -5,8 +5,8 @@ import GV.Spec.MerkleRef
 /-
   ops:
     root <k> <hex_1> … <hex_k>        explicit items ("-" = empty item)
-    rootseq <n> <seed> <len>          n items, item_i = first <len> bytes (len ≤ 8) of the
-                                      little-endian 64-bit word (seed + i·0x9E3779B97F4A7C15) mod 2^64
+    rootseq <n> <seed> <len>          n items of <len> bytes, byte j of item i = byte j%8 (little endian) of
+                                      (seed + i·0x9E3779B97F4A7C15 + (j/8)·0xD1B54A32D192ED03) mod 2^64
     b2b <hex> | b2b224 <hex>          validation of the driver's Blake2b against x/crypto
     b2bseq <n> <seed>                 same on an n-byte message, byte_i = ((seed+i)·167 + i/256) mod 256
   out: lowercase hex of the digest
@@ -17,8 +17,9 @@ namespace GV.Drv.C35
 open GV.Line
 
 def seqItem (seed i len : Nat) : List UInt8 :=
-  let w := (seed + i * 0x9E3779B97F4A7C15) % 2 ^ 64
-  (List.range (min len 8)).map fun j => UInt8.ofNat ((w / 256 ^ j) % 256)
+  (List.range len).map fun j =>
+    let w := (seed + i * 0x9E3779B97F4A7C15 + (j / 8) * 0xD1B54A32D192ED03) % 2 ^ 64
+    UInt8.ofNat ((w / 256 ^ (j % 8)) % 256)
 
 def seqMsg (n seed : Nat) : List UInt8 :=
   (List.range n).map fun i => UInt8.ofNat (((seed + i) * 167 + i / 256) % 256)
